@@ -18,6 +18,7 @@ from simkit.core import RunResult, short_hash
 LEVEL = {"C20": "exploration"}
 TIERS = {"C20": (12000, 150, 400000, 1200)}
 PROBES = {"C20": ["control_accepted", "rejected_as_required", "fit_rejected_leaves_unfitted",
+                  "state_unchanged_after_rejection",
                   "valid_call_after_rejection", "malformed_y", "malformed_X", "malformed_fh",
                   "missing_or_different_fh", "malformed_window_step_sp", "window_does_not_fit",
                   "unknown_strategy", "ill_formed_composite", "entry_forecaster", "entry_composite",
@@ -204,8 +205,13 @@ def _register_y_cells():
             f = C.build(spec).fit(ctx.y_train, fh=list(ctx.steps))
             g = C.build(spec).fit(ctx.y_train, fh=list(ctx.steps))
             bad = malform_y(m, ctx.y_new, ctx.rng)
-            return dict(control=lambda: g.update(ctx.y_new), faulty=lambda: f.update(bad),
-                        after=lambda: f.predict(list(ctx.steps)), sig={"forecaster": _k(spec)})
+            up = ctx.rng.random() < 0.5
+            before = (f.cutoff, len(f._y))
+            return dict(control=lambda: g.update(ctx.y_new, update_params=up),
+                        faulty=lambda: f.update(bad, update_params=up),
+                        after=lambda: f.predict(list(ctx.steps)),
+                        unchanged=lambda: (f.cutoff, len(f._y)) == before,
+                        sig={"forecaster": _k(spec), "update_params": up})
         if m != "y_empty":  # an empty update batch is explicitly allowed by the base class
             cell("update/" + m, "malformed_y", "entry_forecaster")(update_cell)
 
@@ -283,8 +289,13 @@ def _register_X_cells():
             f = C.build(spec).fit(ctx.y_train, X=ctx.X_train, fh=list(ctx.steps))
             g = C.build(spec).fit(ctx.y_train, X=ctx.X_train, fh=list(ctx.steps))
             bad = malform_X(m, ctx.X_new, ctx.rng)
-            return dict(control=lambda: g.update(ctx.y_new, X=ctx.X_new),
-                        faulty=lambda: f.update(ctx.y_new, X=bad), sig={"forecaster": _k(spec)})
+            up = ctx.rng.random() < 0.5
+            before = (f.cutoff, len(f._y))
+            return dict(control=lambda: g.update(ctx.y_new, X=ctx.X_new, update_params=up),
+                        faulty=lambda: f.update(ctx.y_new, X=bad, update_params=up),
+                        after=lambda: f.predict(list(ctx.steps)),
+                        unchanged=lambda: (f.cutoff, len(f._y)) == before,
+                        sig={"forecaster": _k(spec), "update_params": up})
         cell("update/" + m, "malformed_X", "entry_forecaster")(update_cell)
 
         def evaluate_cell(ctx, m=m):
@@ -766,6 +777,16 @@ def execute(prop, scen):
                 if getattr(obj, "is_fitted", False):
                     res.violate("C20.fitted_state_after_rejection", "[%s] fit was rejected but the "
                                 "estimator reports is_fitted True" % name, **sig)
+        # ---- a rejected call leaves the forecaster's state (cutoff, remembered data) alone
+        if c.get("unchanged") and not res.violations:
+            res.probe("state_unchanged_after_rejection")
+            try:
+                same = c["unchanged"]()
+            except Exception:
+                same = False
+            if not same:
+                res.violate("C20.state_changed_by_rejected_call", "[%s] the call was rejected but "
+                            "the forecaster's cutoff / remembered data changed" % name, **sig)
         # ---- the object still works for a valid call
         if c.get("after") and not res.violations:
             try:
